@@ -7,6 +7,7 @@ import TcheranVerif.Model.Time
 import TcheranVerif.Model.Search
 import TcheranVerif.Model.UciCtl
 import TcheranVerif.Model.UciMove
+import TcheranVerif.Model.Mirror
 /-!
 # Request handlers for the engine-level properties (mirror of `harness/src/cmds2.rs`)
 Each returns `(model answer, specification answer)`.
@@ -108,7 +109,11 @@ def evalpairHandle (a b : String) : String × String :=
   match readPosition a, readPosition b with
   | some pa, some pb =>
     let absa := match Eval.absoluteEval pa.game with | some v => toString v | none => "panic"
-    (s!"a={evalText pa.game} b={evalText pb.game} absa={absa}", "-")
+    -- the second position of the request must be the transformation the theorem `eval_mirror` is about
+    let m := Game.mirror theCfg pa.game
+    let same := m.board == pb.game.board && m.player == pb.game.player && m.rights == pb.game.rights &&
+      m.ep == pb.game.ep
+    (s!"a={evalText pa.game} b={evalText pb.game} absa={absa}", if same then "mirror=ok" else "mirror=DIFF")
   | _, _ => bad
 
 def blendHandle (mg eg ph : String) : String × String :=
@@ -149,7 +154,11 @@ def seeHandle (a b : String) : String × String :=
             | _, _ => false
           s!"{m.text}={boolDigit (v ≥ 0)}:{boolDigit tie}:{boolDigit undefended}:{boolDigit vga}"
         | none => s!"{m.text}=?"
-      (" ".intercalate sorted, " ".intercalate (sortStrings specItems))
+      -- the second position must be the transformation the theorem `see_mirror` is about
+      let mg := Game.mirror theCfg pa.game
+      let same := mg.board == pb.game.board && mg.player == pb.game.player && mg.ep == pb.game.ep
+      let tag := if same then "@mirror=ok" else "@mirror=DIFF"
+      (" ".intercalate sorted, " ".intercalate (tag :: sortStrings specItems))
   | _, _ => bad
 
 /-! ### C18 -/
